@@ -226,6 +226,13 @@ def compare_cases3(prop, cases, imports, chk, extra):
     for p, path in zip(procs, files):
         out = p.communicate()[0]
         if p.returncode != 0:
+            # a shard killed under memory pressure / overload (no Coq error message) is re-run once, alone
+            if "Error" not in out:
+                p2 = subprocess.run(["timeout", "1800", "coqc", "-noglob", "-Q", COQ, "PV", path], stdout=subprocess.PIPE, stderr=subprocess.STDOUT, text=True)
+                out = p2.stdout
+                if p2.returncode == 0:
+                    p.returncode = 0
+        if p.returncode != 0:
             errors.append((path, out[-3000:])); continue
         ls = parse_nlist(out)
         if len(ls) > 0: a += ls[0]
